@@ -42,7 +42,7 @@ func (c16) Batches(tier string, seed uint64) []core.Batch {
 }
 
 func (c16) Mandatory(tier string) []string {
-	return []string{"flip:debian-binary", "flip:control", "flip:data", "flip:signature", "flip:lib-rejected", "untampered-verified", "decoy:control", "decoy:data", "decoy:same-name",
+	return []string{"flip:debian-binary", "flip:control", "flip:data", "flip:signature", "flip:lib-rejected", "untampered-verified", "reader:eof-with-last-bytes", "decoy:control", "decoy:data", "decoy:same-name",
 		"decoy:before-genuine", "decoy:after-genuine", "role:absent", "decoy:near-miss-name", "exposed-content-is-signed-content", "sequence:good-bad-empty-absent-good", "keyring:unrelated", "keyring:empty", "keyring:signer+others", "codec:stored", "codec:gz",
 		"role:origin", "role:maint", "role:archive"}
 }
@@ -150,8 +150,17 @@ func (p c16) run(c *core.C, cs c16Case) {
 	if reps < 1 {
 		reps = 1
 	}
+	if cs.Fault == "none" && reps < 2 {
+		reps = 2
+	}
+	rawNoPad := model.WriteAr(cs.Members, false)
 	for rep := 0; rep < reps; rep++ {
 		cr := &core.CountingReaderAt{In: bytes.NewReader(raw), HeaderLen: 60, Size: int64(len(raw))}
+		if rep%2 == 1 {
+			// a source that reports io.EOF together with the last bytes, over an archive that ends with the signature's last byte
+			cr = &core.CountingReaderAt{In: bytes.NewReader(rawNoPad), HeaderLen: 60, Size: int64(len(rawNoPad)), ExactEOF: true}
+			c.Cover("reader:eof-with-last-bytes")
+		}
 		d, err := deb.Load(cr, "signed.deb")
 		if err != nil {
 			c.Cover("flip:lib-rejected")
